@@ -937,6 +937,103 @@ theorem removeM_interleaveM : ∀ (mask : List (Option ℕ)) (u : Fock), u.lengt
   | none :: ms, [], hu => by
     simp [freeModes] at hu
 
+/-! ### declaration order of the heralds -/
+
+theorem lookup_perm {h h' : List (ℕ × ℕ)} (hp : h.Perm h') (hnd : (h.map (·.1)).Nodup) (i : ℕ) :
+    h.lookup i = h'.lookup i := by
+  have hnd' : (h'.map (·.1)).Nodup := (hp.map _).nodup_iff.mp hnd
+  cases e : h.lookup i with
+  | some d => exact (lookup_of_mem hnd' (hp.subset (lookup_mem e))).symm
+  | none =>
+    cases e' : h'.lookup i with
+    | none => rfl
+    | some d =>
+      have := lookup_of_mem hnd (hp.symm.subset (lookup_mem e'))
+      rw [e] at this
+      cases this
+
+theorem heraldMask_perm (m : ℕ) {h h' : List (ℕ × ℕ)} (hp : h.Perm h') (hnd : (h.map (·.1)).Nodup) :
+    heraldMask m h = heraldMask m h' := by
+  simp only [heraldMask]
+  exact List.map_congr_left fun i _ => lookup_perm hp hnd i
+
+theorem nHeralds_perm {h h' : List (ℕ × ℕ)} (hp : h.Perm h') : nHeralds h = nHeralds h' := by
+  simp only [nHeralds]
+  exact (hp.map _).sum_eq
+
+/-! ### detector stage -/
+
+/-- every row of every kernel is a probability distribution -/
+def KernsNormed (Ks : List Kern) : Prop := ∀ K ∈ Ks, ∀ k, ((K k).map (·.2)).sum = 1
+
+theorem mass_map_scaled (a : ℕ × ℚ) (d : D) :
+    mass (d.map fun sp => (a.1 :: sp.1, a.2 * sp.2)) = a.2 * mass d := by
+  induction d with
+  | nil => simp
+  | cons b d ihd => simp only [List.map_cons, mass_cons, ihd]; ring
+
+theorem mass_flatMap_scaled (l : List (ℕ × ℚ)) (d : D) :
+    mass (l.flatMap fun jq => d.map fun sp => (jq.1 :: sp.1, jq.2 * sp.2)) = (l.map (·.2)).sum * mass d := by
+  induction l with
+  | nil => simp
+  | cons a l ih =>
+    simp only [List.flatMap_cons, mass_append, ih, List.map_cons, List.sum_cons, mass_map_scaled]
+    ring
+
+theorem mass_detectState : ∀ (Ks : List Kern) (t : Fock), KernsNormed Ks → mass (detectState Ks t) = 1
+  | [], _, _ => by simp [detectState]
+  | _ :: _, [], _ => by simp [detectState]
+  | K :: Ks, a :: t, hK => by
+    rw [detectState, mass_flatMap_scaled, hK K (List.mem_cons_self ..) a,
+      mass_detectState Ks t (fun K' hK' => hK K' (List.mem_cons_of_mem _ hK'))]
+    ring
+
+/-- the detector stage moves probability between patterns, it neither creates nor loses any -/
+theorem mass_detect (Ks : List Kern) (d : D) (hK : KernsNormed Ks) : mass (detect Ks d) = mass d := by
+  induction d with
+  | nil => simp [detect]
+  | cons a d ih =>
+    have : detect Ks (a :: d) = scale a.2 (detectState Ks a.1) ++ detect Ks d := by
+      simp [detect]
+    rw [this, mass_append, ih, mass_scale, mass_detectState Ks a.1 hK, mass_cons]; ring
+
+theorem detectState_pnr : ∀ (ds : List Det) (t : Fock), allPnr ds = true → ds.length = t.length →
+    detectState (ds.map Det.kern) t = [(t, 1)]
+  | [], [], _, _ => by simp [detectState]
+  | [], _ :: _, _, h => by simp at h
+  | _ :: _, [], _, h => by simp at h
+  | d :: ds, a :: t, hp, hl => by
+    simp only [allPnr, List.all_cons, Bool.and_eq_true] at hp
+    have ih := detectState_pnr ds t (by simpa [allPnr] using hp.2) (by simpa using hl)
+    have hk : d.kern a = [(a, 1)] := by
+      cases d <;> simp_all [Det.isPnr, Det.kern]
+    simp [detectState, hk, ih]
+
+/-- perfect photon-number resolution on every mode: the detector stage is the identity (as a list) -/
+theorem detect_pnr (ds : List Det) (hp : allPnr ds = true) (d : D) (hl : ∀ p ∈ d, p.1.length = ds.length) :
+    detect (ds.map Det.kern) d = d := by
+  induction d with
+  | nil => simp [detect]
+  | cons a d ih =>
+    have h1 : detect (ds.map Det.kern) (a :: d) =
+        scale a.2 (detectState (ds.map Det.kern) a.1) ++ detect (ds.map Det.kern) d := by simp [detect]
+    rw [h1, ih (fun p hp' => hl p (List.mem_cons_of_mem _ hp')),
+      detectState_pnr ds a.1 hp (hl a (List.mem_cons_self ..)).symm]
+    simp [scale]
+
+theorem full_keys (eng : Fock → D) (m : ℕ) : ∀ (members : List Member),
+    (∀ mb ∈ members, ∀ s ∈ mb.groups, ∀ q ∈ eng s, q.1.length = m ∧ q.1.sum = s.sum) →
+    ∀ p ∈ full eng m members, p.1.length = m
+  | [], _ => by intro p hp; cases hp
+  | mb :: r, h => by
+    intro p hp
+    have e : full eng m (mb :: r) = scale mb.w (fullMember eng m mb) ++ full eng m r := rfl
+    rw [e, List.mem_append] at hp
+    rcases hp with hp | hp
+    · obtain ⟨q, hq, rfl⟩ := mem_scale hp
+      exact (fullMember_keys eng m mb (h mb List.mem_cons_self) q hq).1
+    · exact full_keys eng m r (fun mb' hmb' => h mb' (List.mem_cons_of_mem _ hmb')) p hp
+
 /-! ### witnesses for the non-vacuity examples of `Props/C04.lean` -/
 
 def idEng : Fock → D := fun s => [(s, 1)]
